@@ -287,7 +287,7 @@ func acceptableHeader(d []byte, q *ntp.Packet) bool {
 
 type window struct{ a, b time.Time }
 
-var rec = ev.New("c05/acceptance", "rapid: a real IPClient (plain or NTS after a real key exchange with the harness's TLS key-exchange server; interleaved mode on/off, 0..2 clean warm-up exchanges) sends its request to the harness's server model, which answers with a script of 1..3 datagrams, each built for its own server clock offset (>= 2 s apart) and mutated: genuine; arbitrary bytes; single-field mutations (origin bit / zero, mode, version, leap, stratum, transmit before receive, truncation, harmless fields); NTS: flipped bit anywhere in the extension fields, other request's identifier, authenticator sealed under the C2S key or a random key, authenticator removed, extension-length edits; sent from the queried address, another address, or another port of the queried address. Oracle: success => the reported offset lies in the envelope computed from the timestamps carried by exactly one delivered datagram that is acceptable by the statement's predicate (evaluated independently, NTS with own walker + miscreant); no acceptable datagram delivered => error; a lone genuine reply => success. One evaluation = one scripted exchange. Non-trivial: >= 1 non-acceptable datagram was delivered; distinct by (mode, script description)")
+var rec = ev.New("c05/acceptance", "rapid: a real IPClient (plain or NTS after a real key exchange with the harness's TLS key-exchange server; interleaved mode on/off, 0..2 clean warm-up exchanges) sends its request to the harness's server model, which answers with a script of 1..3 datagrams, each built for its own server clock offset (>= 2 s apart) and mutated: genuine; arbitrary bytes; single-field mutations (origin bit / zero, mode, version, leap, stratum, transmit before receive, truncation, harmless fields); NTS: flipped bit anywhere in the extension fields, other request's identifier, authenticator sealed under the C2S key or a random key, authenticator removed, keyless authenticator with a ciphertext shorter than the tag, extension-length edits; sent from the queried address, another address, or another port of the queried address. Oracle: success => the reported offset lies in the envelope computed from the timestamps carried by exactly one delivered datagram that is acceptable by the statement's predicate (evaluated independently, NTS with own walker + miscreant); no acceptable datagram delivered => error; a lone genuine reply => success. One evaluation = one scripted exchange. Non-trivial: >= 1 non-acceptable datagram was delivered; distinct by (mode, script description)")
 
 func TestPropAcceptance(t *testing.T) {
 	vt.Check(t, 500, 5000, func(t *rapid.T) {
@@ -366,7 +366,7 @@ func TestPropAcceptance(t *testing.T) {
 			d.mut = rapid.SampledFrom(headerMutations).Draw(t, "mutation")
 			d.via = rapid.SampledFrom([]string{"server", "server", "server", "server", "other-address", "other-port"}).Draw(t, "via")
 			if useNTS {
-				d.nts = rapid.SampledFrom([]string{"genuine", "genuine", "bitflip", "other-uid", "sealed-c2s", "sealed-random", "no-auth", "len-edit", "plain"}).Draw(t, "nts-mutation")
+				d.nts = rapid.SampledFrom([]string{"genuine", "genuine", "bitflip", "other-uid", "sealed-c2s", "sealed-random", "no-auth", "len-edit", "plain", "short-ciphertext"}).Draw(t, "nts-mutation")
 			}
 			plan = append(plan, d)
 		}
@@ -425,6 +425,26 @@ func TestPropAcceptance(t *testing.T) {
 						binary.BigEndian.PutUint16(data[f.off+2:], uint16(int(l)+rapid.SampledFrom([]int{-4, 4, -l2i(l), 8}).Draw(t, "lendelta")))
 					case "plain":
 						data = hdr
+					case "short-ciphertext":
+						// needs no key: the request's identifier in the clear, and an authenticator whose ciphertext is
+						// shorter than an AES-SIV tag (0..15 bytes), padded to the minimum field size
+						n := rapid.IntRange(0, 15).Draw(t, "ctlen")
+						data = bytes.Clone(hdr[:48])
+						uf := make([]byte, 4+len(uid))
+						binary.BigEndian.PutUint16(uf, 0x104)
+						binary.BigEndian.PutUint16(uf[2:], uint16(len(uf)))
+						copy(uf[4:], uid)
+						data = append(data, uf...)
+						bl := max(24, (4+16+n+3)&^3)
+						af := make([]byte, 4+bl)
+						binary.BigEndian.PutUint16(af, 0x404)
+						binary.BigEndian.PutUint16(af[2:], uint16(len(af)))
+						binary.BigEndian.PutUint16(af[4:], 16)
+						binary.BigEndian.PutUint16(af[6:], uint16(n))
+						for j := 0; j < 16+n; j++ {
+							af[8+j] = byte(0x30 + j)
+						}
+						data = append(data, af...)
 					}
 					desc += "+nts:" + d.nts
 				}
